@@ -8,7 +8,9 @@ from lib import coq_list as L, coq_nat as N
 THEOREMS = ['C08_valid_prefix', 'C08_expected_sound', 'C08_expected_complete', 'C08_first_offending_token', 'C08_model_expected_exact',
             'C08_example',
             'C08_lalr_valid_items_viable', 'C08_lalr_shift_viable', 'C08_lalr_error_not_late', 'C08_lalr_accepts_sound',
-            'C08_lalr_example']
+            'C08_lalr_example',
+            'C08_lalr_never_early', 'C08_lalr_error_position_exact', 'C08_lalr_accepts_exact',
+            'C08_lalr_never_early_needs_conflict_free']
 GEN_DEPS = []
 RULE = ('random CFGs with every rule productive (<=4 non-terminals, <=3 single-character terminals, nullable / recursive / '
         'ambiguous), all strings up to length 4 over the alphabet (+ a foreign character) and sampled longer ones; every '
